@@ -184,7 +184,8 @@ def damage_case(d):
     n = len(lex)
     pre_lines = [i for i, ln in enumerate(p.lines) if ln.kind in ("include", "define", "ifndef", "endif")]
     for _ in range(d.int(6, 10)):
-        k = d.weighted([(4, "prefix"), (3, "edit1"), (3, "edit2"), (2, "comment-in-directive") if pre_lines else (0, "x"), (1, "comment-anywhere")])
+        k = d.weighted([(4, "prefix"), (3, "edit1"), (3, "edit2"), (2, "comment-in-directive") if pre_lines else (0, "x"), (1, "comment-anywhere"),
+                        (3, "keyword-as-identifier"), (2, "directive-operand") if pre_lines else (0, "y")])
         if k in ("comment-in-directive", "comment-anywhere"):
             # a comment is white space for C: legal between any two tokens, also inside a directive
             q = p.copy()
@@ -198,6 +199,24 @@ def damage_case(d):
             # optionally drop everything after this line (so that nothing later can end a runaway scan)
             if d.bool(0.5):
                 del q.lines[li + 1:]
+            variants.append((k, q.text))
+            continue
+        if k in ("keyword-as-identifier", "directive-operand"):
+            # token-class confusion: an identifier (or the operand of a directive) spelled like a keyword / another lexeme
+            q = p.copy()
+            cands = []
+            for li, ln in enumerate(q.lines[12:], start=12):
+                for kx, x in enumerate(ln.lex):
+                    if k == "keyword-as-identifier" and x.k == "id":
+                        cands.append((li, kx))
+                    elif k == "directive-operand" and ln.kind in ("include", "define", "ifndef", "endif", "ppelse") and kx > 0 and x.k not in ("sp", "hash", "pp"):
+                        cands.append((li, kx))
+            if not cands:
+                continue
+            li, kx = cands[d.int(0, len(cands) - 1)]
+            word = d.choice(["NULL", "int", "inline", "static", "void", "struct", "sizeof", "if", "return", "const", "typedef", "enum", "char", "extern", "while"]) \
+                if k == "keyword-as-identifier" or d.bool() else d.choice(VOCAB)
+            q.lines[li].lex[kx].t = word
             variants.append((k, q.text))
             continue
         if k == "prefix":
